@@ -97,6 +97,8 @@ def make(K, second_term=False, reach=False, mode="lockstep", real_fetcher=False)
                 rnd, after_p = j, not fb_first[j]
             elif mode == "fb_ahead":
                 rnd, after_p = max(0, j - 1), False
+            elif mode == "fb_ahead2":
+                rnd, after_p = max(0, j - 2), False
             else:  # fb_pairs
                 rnd, after_p = (0 if j == 0 else ((j - 1) // 2) * 2), False
             return rnd > f or (rnd == f and after_p)
@@ -144,12 +146,19 @@ def make(K, second_term=False, reach=False, mode="lockstep", real_fetcher=False)
                     await send_p(k)
                     await asyncio.sleep(1.0)
             else:
-                if mode in ("fb_ahead", "fb_pairs"):
+                if mode in ("fb_ahead", "fb_pairs", "fb_ahead2"):
                     await send_f(0)
+                if mode == "fb_ahead2":
+                    await send_f(1)
+                    await asyncio.sleep(0.1)
                 for k in range(KT):
                     await send_s(k)
                     if mode == "fb_ahead":
                         await send_f(k + 1)
+                        await send_p(k)
+                    elif mode == "fb_ahead2":
+                        await send_f(k + 2)
+                        await asyncio.sleep(0.1)   # the fallback engine emits its result before the (late) primary sample arrives
                         await send_p(k)
                     elif mode == "fb_pairs":
                         if k % 2 == 0:
@@ -163,7 +172,7 @@ def make(K, second_term=False, reach=False, mode="lockstep", real_fetcher=False)
                         await send_p(k)
                         await send_f(k)
                     await asyncio.sleep(1.0)
-                if mode != "fb_pairs":
+                if mode not in ("fb_pairs", "fb_ahead2"):
                     await send_f(KT + 1 if mode == "fb_ahead" else KT)   # the fallback stream continues
                 await asyncio.sleep(1.0)
             outs = []
@@ -215,7 +224,7 @@ def make(K, second_term=False, reach=False, mode="lockstep", real_fetcher=False)
                 # the fallback samples of the burst were sent before the lazily started fallback subscribed: nothing to fall back to
                 exp = None
                 why = "burst: no fallback sample of this timestamp can exist, output must be None"
-            elif mode in ("fb_ahead", "fb_pairs") and f is not None and k > f and not fallback_available(k, f):
+            elif mode in ("fb_ahead", "fb_pairs", "fb_ahead2") and f is not None and k > f and not fallback_available(k, f):
                 # the fallback sample of this timestamp was sent (early) before the fallback was started
                 exp = None
                 why = "the fallback sample of this timestamp was sent before the fallback subscribed, output must be None"
@@ -248,7 +257,9 @@ def instances(tier):
            I("K3-2terms-realfetcher", "make", (3, True, False, "lockstep", True), "same with the real FallbackFormulaMetricFetcher (stub generator, real fallback engine)",
              budget_s=600, validate_every=500),
            I("K4-2terms-fb-ahead-realfetcher", "make", (4, True, False, "fb_ahead", True), "fallback stream delivered one round early, real fetcher", budget_s=300, validate_every=100),
-           I("K5-2terms-fb-pairs-realfetcher", "make", (5, True, False, "fb_pairs", True), "fallback samples delivered two at a time every second round (up to 2 unread), real fetcher",
+           I("K5-2terms-fb-pairs-realfetcher", "make", (5, True, False, "fb_pairs", True), "fallback samples delivered two at a time every second round, real fetcher",
+             budget_s=300, validate_every=100),
+           I("K5-2terms-fb-ahead2-realfetcher", "make", (5, True, False, "fb_ahead2", True), "fallback stream two rounds early and the primary late (2 unread fallback results), real fetcher",
              budget_s=300, validate_every=100),
            I("K2+2-2terms-burst", "make", (2, True, False, "burst", False), "first 2 timestamps delivered as a burst before the engine runs, then 2 live rounds",
              budget_s=300, validate_every=100)]
